@@ -178,6 +178,45 @@ PLAN["C17"] = dict(
     assumptions=ENV_ASSUMPTIONS[:1],
     explanation="hand-shake ownership + buffer staging for all interleavings; formatters, file contents, the quicklogger reader, pause/resume timing and restart-after-stop are not decided")
 
+def _engine_extra(keys, sidecars, tag):
+    """run a few more functions under other sidecars and fold their obligations into the property's count"""
+    def hook(tier="quick", seed=0, repo="/repo"):
+        from pyvc.driver import run_functions
+        from pyvc.check import strip_line
+        res = dict(obligations=0, discharged=0, open={}, discharged_names=[], samples=[], by_backend={}, seconds=0.0, crashes=[], undecided=[], bounded=[], assumptions=[])
+        for r in run_functions(keys, sidecars=sidecars, tier=tier, seed=seed, repo=repo, log=lambda m: None, only_tag=tag):
+            if r.get("error"):
+                res["crashes"].append(f"{r['function']}: {r['error'][:300]}")
+                continue
+            if r.get("unsupported"):
+                res["undecided"].append(f"{r['function']}: {r['unsupported']}")
+                continue
+            res["assumptions"] += [f"assumed contract: {a}" for a in r.get("assumed", [])] + [f"library model: {u}" for u in r.get("lib", [])]
+            per = {}
+            for ob in r["obligations"]:
+                if ob.get("backend") == "other-property" or (ob.get("tags") and tag not in ob["tags"]):
+                    continue
+                per.setdefault(strip_line(ob["name"]), []).append(ob)
+            for nm, obs in per.items():
+                res["obligations"] += 1
+                res["seconds"] += sum(o["seconds"] for o in obs)
+                if all(o["status"] == "discharged" for o in obs):
+                    res["discharged"] += 1
+                    res["discharged_names"].append(nm)
+                    for o in obs:
+                        res["by_backend"][o["backend"] or "?"] = res["by_backend"].get(o["backend"] or "?", 0) + 1
+                else:
+                    b = [o for o in obs if o["status"] != "discharged"][0]
+                    res["open"][nm] = dict(kind=b["kind"], status=b["status"], text=b["text"], reason=b.get("reason"), candidates=[], lineno=b.get("lineno"), path=b.get("path"))
+        return res
+    return hook
+
+
+from .validator_contracts import V as _V
+PLAN["C03"]["extra"] = [_engine_extra([_V + "String.__get__"], ["contracts.validator_contracts"], "C03")]
+PLAN["C03"]["assumptions"] = PLAN["C03"]["assumptions"] + ["the manager reads string fields of client messages through validators.String.__get__, which is verified here to return ASCII text or raise "
+                                                          "UnicodeDecodeError (the manager's library model of the read relies on exactly that)"]
+
 NOT_APPLICABLE = {
     "C10": "not decided: the round trip goes through json.dumps/json.loads, ctypes reflection over _fields_ of arbitrary generated classes and float repr; the string/float theories needed (float <-> shortest-repr "
            "text, JSON escaping) are outside what the z3/cvc5 encodings built here can discharge, and a bounded CrossHair run would not count as proved. The defect found by reading (stale bytes after "
